@@ -1,13 +1,122 @@
 /-
 C19 — shipped quantum codes satisfy Knill–Laflamme and their listed stabilizers.
-(baseline: per-code obligations; general theorems are added below)
+
+Model: `NumqiModel/Qec.lean` (executed by `Driver/C19.lean`); data: `NumqiModel/Generated/QecCircuits.lean`
+(rewritten from the live `numqi.qec.generate_code*()` objects on every run, so the per-code theorems
+below are re-checked by the kernel whenever an encoder, a listed string or a stabilizer circuit changes).
+
+Reading guide.  A state vector is a function `position → amplitude` over a commutative ring `R` with an
+element `I`, `I² = -1` (instantiate `R = ℂ`); `codeword I c a` is the model of
+`generate_code_np(c.encode, K)[a]` scaled by `√2^h` (`h` Hadamards); `pauliAct I P v` is the Pauli operator
+`P = i^k X^x Z^z` applied to `v`; `ip n u v = Σ_{i<2^n} conj(u_i) v_i`.
+Helper lemmas: `NumqiProofs/Qec*.lean`.  Error-set theorems: `NumqiProps/C19ErrorSets.lean`.
 -/
+import NumqiProofs.QecKL
+import NumqiProofs.QecErrorList
 import NumqiModel.Generated.QecCircuits
+import Mathlib.Data.Complex.Basic
 
 namespace Numqi.C19
 open Numqi Numqi.Qec Numqi.Qec.Generated
 
 set_option maxRecDepth 100000
+
+variable {R : Type} [CommRing R]
+
+/-! ### general theorems (every code, every circuit of the modelled gates, `n ≤ 32` qubits) -/
+
+/-- **The tableau is conjugation.**  Propagating `P` through the gate list with the tableau rules gives
+`P' = U P U†`:  `U (P v) = P' (U v)` for every vector `v`. -/
+theorem tableau_is_conjugation {I : R} (hI : I * I = -1) {n : Nat} (hn : n ≤ 32) (gs : List Gate)
+    (hg : gs.all (gateOk n) = true) (p p' : MP) (h : conjCirc p gs = some p') (v : Nat → R) :
+    run I gs (pauliAct I p v) = pauliAct I p' (run I gs v) :=
+  conjCirc_sound hI hn gs hg p p' h v
+
+/-- **Product and commutation on the masks are those of the operators**, phase included. -/
+theorem pauli_product_law {I : R} (hI : I * I = -1) (a b : MP) (v : Nat → R) :
+    pauliAct I (MP.mul a b) v = pauliAct I a (pauliAct I b v)
+    ∧ pauliAct I a (pauliAct I b v) = fun i => (if MP.acomm a b then -1 else 1) * pauliAct I b (pauliAct I a v) i :=
+  ⟨pauliAct_mul hI a b v, pauliAct_comm hI a b v⟩
+
+variable [StarRing R]
+
+/-- **Pauli operators are unitary** on `n` qubits. -/
+theorem pauli_unitary {I : R} (hI : I * I = -1) (hs : star I = -I) {n : Nat} (p : MP) (hx : p.x < 2 ^ n)
+    (u v : Nat → R) : ip n (pauliAct I p u) (pauliAct I p v) = ip n u v :=
+  ip_pauliAct hI hs p hx u v
+
+/-- **Every circuit is an isometry up to the `√2` scaling of `H`.** -/
+theorem circuit_isometry {I : R} (hI : I * I = -1) (hs : star I = -I) (h2 : ∀ a b : R, 2 * a = 2 * b → a = b)
+    {n : Nat} (gs : List Gate) (hg : gs.all (gateOk n) = true) (u v : Nat → R) :
+    ip n (run I gs u) (run I gs v) = 2 ^ countH gs * ip n u v :=
+  ip_run hI hs h2 gs hg u v
+
+/-- **Code words are orthonormal** (after the `1/√2^h` scaling): `⟨c_a|c_b⟩ = 2^h δ_ab`. -/
+theorem codewords_orthonormal {I : R} (hI : I * I = -1) (hs : star I = -I) (h2 : ∀ a b : R, 2 * a = 2 * b → a = b)
+    (c : Code) (hc : shapeCheck c = true) (a b : Nat) (ha : a < c.K) (hb : b < c.K) :
+    ip c.n (codeword I c a) (codeword I c b) = if a = b then 2 ^ countH c.encode else 0 :=
+  codeword_ortho hI hs h2 c hc a b ha hb
+
+/-- **`stabilizer_KL`: the Pauli-level check implies Knill–Laflamme on the vectors, for every Pauli
+string below the distance.**  If `klCheck c = true` then for every string `s` of `n` symbols I/X/Y/Z of
+weight `1 ≤ w < d` there is a scalar `κ` with `⟨c_a| σ_s |c_b⟩ = κ δ_ab` for all code words. -/
+theorem stabilizer_KL {I : R} (hI : I * I = -1) (hs : star I = -I) (h2 : ∀ a b : R, 2 * a = 2 * b → a = b)
+    (c : Code) (h : klCheck c = true) (s : List Nat) (hl : s.length = c.n) (h4 : ∀ x ∈ s, x < 4)
+    (hw1 : 1 ≤ symWeight s) (hw2 : symWeight s < c.d) :
+    ∃ κ : R, ∀ a < c.K, ∀ b < c.K,
+      ip c.n (codeword I c a) (pauliAct I (MP.ofSyms s) (codeword I c b)) = if a = b then κ else 0 := by
+  have hm := errorList_complete c.n c.d s hl h4 hw1 hw2
+  rw [List.mem_map] at hm
+  obtain ⟨e, he, rfl⟩ := hm
+  rw [← ofSparse_eq_ofSyms c.n c.d e he]
+  exact kl_of_klCheck hI hs h2 c h e he
+
+omit [StarRing R] in
+/-- **Listed stabilizers fix every code word**, sign `+1` included. -/
+theorem listed_stabilizers_fix {I : R} (hI : I * I = -1) (c : Code) (h : listedCheck c = true)
+    (l : List Nat) (hl : l ∈ c.listed) (a : Nat) (ha : a < c.K) :
+    pauliAct I (MP.ofSyms l) (codeword I c a) = codeword I c a :=
+  listed_fix_of_listedCheck hI c h l hl a ha
+
+omit [StarRing R] in
+/-- **The shipped stabilizer circuits implement exactly the listed Pauli strings**: one circuit per
+listed string, and the circuit acts on every vector as that operator. -/
+theorem stabilizer_circuit_implements {I : R} (hI : I * I = -1) (c : Code) (h : stabCircImplCheck c = true) :
+    c.stabCircs.length = c.listed.length ∧
+    ∀ cl ∈ c.stabCircs.zip c.listed, ∀ v : Nat → R, run I cl.1 v = pauliAct I (MP.ofSyms cl.2) v :=
+  stabCirc_of_check hI c h
+
+/-! ### the statement for one code over `ℂ`, and the three Boolean obligations that imply it -/
+
+/-- what C19 asserts about one shipped code, over the complex numbers -/
+def Holds (c : Code) : Prop :=
+  (∀ a < c.K, ∀ b < c.K,
+      ip c.n (codeword Complex.I c a) (codeword Complex.I c b) = if a = b then 2 ^ countH c.encode else 0)
+  ∧ (∀ s : List Nat, s.length = c.n → (∀ x ∈ s, x < 4) → 1 ≤ symWeight s → symWeight s < c.d →
+      ∃ κ : ℂ, ∀ a < c.K, ∀ b < c.K,
+        ip c.n (codeword Complex.I c a) (pauliAct Complex.I (MP.ofSyms s) (codeword Complex.I c b)) = if a = b then κ else 0)
+  ∧ (∀ l ∈ c.listed, ∀ a < c.K, pauliAct Complex.I (MP.ofSyms l) (codeword Complex.I c a) = codeword Complex.I c a)
+  ∧ (c.stabCircs.length = c.listed.length ∧ c.listed ≠ [] ∧
+      ∀ cl ∈ c.stabCircs.zip c.listed, ∀ v : Nat → ℂ, run Complex.I cl.1 v = pauliAct Complex.I (MP.ofSyms cl.2) v)
+
+theorem complex_hyps : Complex.I * Complex.I = -1 ∧ star Complex.I = -Complex.I ∧ ∀ a b : ℂ, 2 * a = 2 * b → a = b :=
+  ⟨Complex.I_mul_I, Complex.conj_I, fun _ _ h => mul_left_cancel₀ two_ne_zero h⟩
+
+/-- the three kernel-checked obligations imply the full statement -/
+theorem holds_of_checks (c : Code) (h1 : klCheck c = true) (h2 : listedCheck c = true) (h3 : stabCircImplCheck c = true) :
+    Holds c := by
+  obtain ⟨hI, hs, h2'⟩ := complex_hyps
+  have hshape : shapeCheck c = true := by
+    unfold klCheck at h1; rw [Bool.and_eq_true] at h1; exact h1.1
+  have hne : c.listed ≠ [] := by
+    unfold listedCheck at h2
+    simp only [Bool.and_eq_true, Bool.not_eq_true', List.isEmpty_eq_false_iff] at h2
+    exact h2.1.2
+  refine ⟨fun a ha b hb => codewords_orthonormal hI hs h2' c hshape a b ha hb,
+    fun s hl h4 hw1 hw2 => stabilizer_KL hI hs h2' c h1 s hl h4 hw1 hw2,
+    fun l hl a ha => listed_stabilizers_fix hI c h2 l hl a ha, ?_⟩
+  obtain ⟨e1, e2⟩ := stabilizer_circuit_implements (R := ℂ) hI c h3
+  exact ⟨e1, hne, e2⟩
 
 /-! ### per code, re-checked by the kernel whenever the generated data change -/
 
@@ -34,5 +143,32 @@ theorem code642_stabCirc : stabCircImplCheck code642 = true := by decide +kernel
 theorem code883_stabCirc : stabCircImplCheck code883 = true := by decide +kernel
 theorem code8_64_2_stabCirc : stabCircImplCheck code8_64_2 = true := by decide +kernel
 theorem code10_4_4_stabCirc : stabCircImplCheck code10_4_4 = true := by decide +kernel
+
+/-- **((5,2,3))**: orthonormal code words, Knill–Laflamme for every error of weight < 3, the four listed
+stabilizers fix the code words, the four shipped circuits are those operators. -/
+theorem code523_holds : Holds code523 := holds_of_checks _ code523_klCheck code523_listed code523_stabCirc
+theorem code422_holds : Holds code422 := holds_of_checks _ code422_klCheck code422_listed code422_stabCirc
+theorem code442_holds : Holds code442 := holds_of_checks _ code442_klCheck code442_listed code442_stabCirc
+theorem code642_holds : Holds code642 := holds_of_checks _ code642_klCheck code642_listed code642_stabCirc
+theorem code883_holds : Holds code883 := holds_of_checks _ code883_klCheck code883_listed code883_stabCirc
+theorem code8_64_2_holds : Holds code8_64_2 := holds_of_checks _ code8_64_2_klCheck code8_64_2_listed code8_64_2_stabCirc
+theorem code10_4_4_holds : Holds code10_4_4 := holds_of_checks _ code10_4_4_klCheck code10_4_4_listed code10_4_4_stabCirc
+
+/-! ### the obligations are not vacuous -/
+
+/-- the check rejects a code without encoder: `X` on the last qubit is undetected -/
+example : klCheck ⟨"no encoder", 5, 2, 3, [], [], []⟩ = false := by decide +kernel
+/-- … a wrong listed string … -/
+example : listedCheck { code523 with listed := [[1, 0, 2, 1, 3]] } = false := by decide +kernel
+/-- … a stabilizer circuit that is not its listed string (here: a different gate) … -/
+example : stabCircImplCheck { code422 with stabCircs := [[.x 0, .x 1], [.z 0, .x 1, .z 2, .z 3], [.x 2, .x 3]] } = false := by
+  decide +kernel
+/-- … and an unclassified gate anywhere in the encoder. -/
+example : klCheck { code422 with encode := code422.encode ++ [.unknown] } = false := by decide +kernel
+/-- the ((5,2,3)) statement speaks about 2 code words, 4 listed strings and errors of weight 1 and 2 -/
+example : code523.K = 2 ∧ code523.listed.length = 4 ∧ (errorList code523.n code523.d).length = 105 := by decide +kernel
+/-- the degenerate branch (error = product of generators up to a phase) is exercised by the trivial
+one-dimensional code `|00⟩` with `d = 2`: `Z` errors act as scalars (no shipped code has such errors below `d`) -/
+example : klCheck ⟨"|00>", 2, 1, 2, [], [], []⟩ = true := by decide +kernel
 
 end Numqi.C19
